@@ -289,18 +289,19 @@ end Carried
 /-- what a successful header line went through -/
 theorem header_inv (af : Bool) (s s' : St) (n l : Int) (h : header af s = .ok (.counts n l, s')) :
     ∃ l1 s1 s2 l2 s3, skipLeading (s.inp.length + 3) s = .ok (.num l1, s1) ∧ parseInt64 l1 = some n ∧
-      s1.scan = .ok (.ws, s2) ∧ s2.scan = .ok (.num l2, s3) ∧ parseInt64 l2 = some l := by
+      s1.scan = .ok (.ws, s2) ∧ s2.scan = .ok (.num l2, s3) ∧ parseInt64 l2 = some l ∧ s3.scan = .ok (.eol, s') := by
   unfold header at h
   simp only [bind, Except.bind, pure, Except.pure] at h
   repeat' (split at h <;> try (simp at h))
   rename_i _ v5 hsl _ _ l1 ht1 _ n1 hp1 _ _ _ _ _ v3 hs1 hw _ v2 hs2 _ l2 ht2 _ n2 hp2 _ _ v hs3 he
-  obtain ⟨⟨rfl, rfl⟩, _⟩ := h
+  obtain ⟨⟨rfl, rfl⟩, rfl⟩ := h
   obtain ⟨t5, s5⟩ := v5
   obtain ⟨t3, s3⟩ := v3
   obtain ⟨t2, s2⟩ := v2
-  simp only at ht1 hw ht2 hs1 hs2
-  subst ht1 hw ht2
-  exact ⟨l1, s5, s3, l2, s2, hsl, hp1, hs1, hs2, hp2⟩
+  obtain ⟨t0, s0⟩ := v
+  simp only at ht1 hw ht2 hs1 hs2 he hs3
+  subst ht1 hw ht2 he
+  exact ⟨l1, s5, s3, l2, s2, hsl, hp1, hs1, hs2, hp2, hs3⟩
 
 theorem header_eos_inv (af : Bool) (s s' : St) (h : header af s = .ok (.eos, s')) :
     ∃ s1, skipLeading (s.inp.length + 3) s = .ok (.eof, s1) := by
@@ -781,7 +782,7 @@ it finds two numbers there) -/
 theorem header_declared (af : Bool) (bs : Seq) (s' : St) (n l : Int)
     (h : header af { inp := bs } = .ok (.counts n l, s')) :
     declaredPhylip bs = none ∨ declaredPhylip bs = some (n, l) := by
-  obtain ⟨l1, s1, s2, l2, s3, hsl, hp1, hs1, hs2, hp2⟩ := header_inv af _ s' n l h
+  obtain ⟨l1, s1, s2, l2, s3, hsl, hp1, hs1, hs2, hp2, _⟩ := header_inv af _ s' n l h
   have hpost := skipLeading_post (PB (declaredPhylip bs)) (RB (declaredPhylip bs))
     (rawB _) (fun _ h => h) (fun _ h => h) _ _ s1 (.num l1) (by
       unfold Pre RB
